@@ -2221,6 +2221,12 @@ PIP_Solution_Node::row_sign(const Row& x,
       sign = NEGATIVE;
     }
   }
+  if (sign == NEGATIVE && x.get(0) == 0) {
+    // All the coefficients are non-positive, but the constant term is zero:
+    // the row is zero when the parameters involved are zero, so that
+    // it is not (strictly) negative on the whole context.
+    return MIXED;
+  }
   return sign;
 }
 
